@@ -131,6 +131,182 @@ def run_history(h, seed, hid):
     return dict(hid=hid, hist=h["hist"], obs=obs)
 
 
+
+# ------------------------------------------------------------------ solver level: solve() is pure too
+SOLVE_COMPS = [
+    ("PDCD_WS", "Pinball", "L1", "dual_init"), ("PDCD_WS", "SqrtQuadratic", "L1", "dual_init"),
+    ("AndersonCD", "WeightedQuadratic", "WeightedL1", None), ("AndersonCD", "Quadratic", "WeightedMCPenalty", None),
+    ("ProxNewton", "Logistic", "WeightedL1", None), ("GroupBCD", "QuadraticGroup", "WeightedGroupL2", None),
+    ("GroupBCD", "QuadraticGroup", "WeightedL1GroupL2", None), ("MultiTaskBCD", "QuadraticMultiTask", "L2_1", None),
+    ("FISTA", "Quadratic", "WeightedL1", None), ("GramCD", "None", "WeightedL1", None), ("LBFGS", "Logistic", "L2", None),
+]
+
+
+def run_solve_purity(comp, storage, seed, tid):
+    """worker: the same solver object solves twice; every user-supplied array (X, y, w_init, Xw_init, penalty weights,
+    sample weights, group arrays, PDCD_WS.dual_init) must be byte-identical afterwards and the second solve must give
+    what a fresh solver gives."""
+    from .. import skl
+    import scipy.sparse as sp
+    s, d, pk, special = comp
+    rng = gen.rng_for(seed, "solve-purity", comp, storage)
+    n, p = 30, 12
+    X = np.asfortranarray(rng.standard_normal((n, p)))
+    if d == "Logistic":
+        y = np.sign(rng.standard_normal(n))
+    elif d == "QuadraticMultiTask":
+        y = np.asfortranarray(rng.standard_normal((n, 2)))
+    else:
+        y = rng.standard_normal(n) + 1.0
+    arrays = {}
+    sw = rng.uniform(0.5, 2.0, n)
+    wts = rng.uniform(0.5, 2.0, p)
+    ptr = np.array([0, 3, 6, 9, 12], dtype=np.int32)
+    idx = rng.permutation(p).astype(np.int32)
+    gw = rng.uniform(0.5, 2.0, 4)
+    if d == "WeightedQuadratic":
+        from skglm.datafits import WeightedQuadratic
+        raw_df = WeightedQuadratic(sw)
+        arrays["sample_weights"] = sw
+    elif d == "QuadraticGroup":
+        from skglm.datafits import QuadraticGroup
+        raw_df = QuadraticGroup(ptr, idx)
+        arrays.update(grp_ptr=ptr, grp_indices=idx)
+    elif d == "None":
+        raw_df = None
+    else:
+        raw_df = skl.raw_datafit({"kind": d, **({"quantile_level": 0.3} if d == "Pinball" else {})})
+    from skglm import penalties as P
+    al = 0.05
+    if pk == "L1":
+        raw_pen = P.L1(al)
+    elif pk == "L2":
+        raw_pen = P.L2(al)
+    elif pk == "L2_1":
+        raw_pen = P.L2_1(al)
+    elif pk == "WeightedL1":
+        raw_pen = P.WeightedL1(al, wts)
+        arrays["weights"] = wts
+    elif pk == "WeightedMCPenalty":
+        raw_pen = P.WeightedMCPenalty(al, 3.0, wts)
+        arrays["weights"] = wts
+    elif pk == "WeightedGroupL2":
+        raw_pen = P.WeightedGroupL2(al, gw, ptr, idx)
+        arrays.update(weights_groups=gw, grp_ptr=ptr, grp_indices=idx)
+    else:
+        raw_pen = P.WeightedL1GroupL2(al, gw, wts, ptr, idx)
+        arrays.update(weights_groups=gw, weights_features=wts, grp_ptr=ptr, grp_indices=idx)
+    Xs = sp.csc_matrix(X) if storage == "csc" else X
+    T = () if y.ndim == 1 else (y.shape[1],)
+    fi = s in ("AndersonCD", "ProxNewton", "GroupBCD", "MultiTaskBCD")
+    w0 = np.zeros((p + int(fi),) + T)
+    w0[:3] = 0.1
+    Xw0 = (X @ w0[:p] + (w0[-1] if fi else 0.0))
+    if s == "MultiTaskBCD":
+        Xw0 = np.asfortranarray(Xw0)
+    f = rel.Facts(tid, dict(solver=s, datafit=d, penalty=pk, storage=storage, seed=seed))
+
+    def make():
+        kw = dict(tol=1e-10)
+        if fi:
+            kw["fit_intercept"] = True
+        if s == "PDCD_WS":
+            dual = rng2.uniform(-0.2, 0.2, n)
+            return skl.solver(s, max_iter=30, dual_init=dual, **kw), dual
+        if s in ("FISTA", "GramCD", "LBFGS"):
+            return skl.solver(s, max_iter=300, **kw), None
+        if pk == "WeightedL1GroupL2":
+            kw["ws_strategy"] = "fixpoint"
+        return skl.solver(s, max_iter=30, **kw), None
+    rng2 = np.random.default_rng(5)
+    slv, dual = make()
+    if dual is not None:
+        arrays["dual_init"] = dual
+    arrays.update(X=Xs, y=y)
+    before = {k: _bytes(v) for k, v in arrays.items()}
+    results = []
+    exc = None
+    try:
+        with warnings.catch_warnings():
+            warnings.simplefilter("ignore")
+            for k in range(2):
+                df = None if raw_df is None else skl.compiled_clone(raw_df)
+                pen = skl.compiled_clone(raw_pen)
+                if df is not None and hasattr(df, "initialize") and s in ("ProxNewton", "FISTA", "LBFGS", "PDCD_WS"):
+                    if storage == "csc" and hasattr(df, "initialize_sparse"):
+                        df.initialize_sparse(Xs.data, Xs.indptr, Xs.indices, y)
+                    else:
+                        df.initialize(X, y)
+                wi, Xwi = w0.copy(), np.array(Xw0, copy=True, order="F" if Xw0.ndim == 2 else "C")
+                b_wi, b_Xwi = wi.tobytes(), Xwi.tobytes()
+                res = slv.solve(Xs, y, df, pen) if k == 0 or s in ("LBFGS", "PDCD_WS", "GramCD", "FISTA") \
+                    else slv.solve(Xs, y, df, pen)
+                results.append(np.array(res[0], dtype=float, copy=True))
+                touched = [k2 for k2, v in arrays.items() if _bytes(v) != before[k2]]
+                f.flag("inputs_untouched", not touched)
+                if touched:
+                    f.meta.setdefault("touched", []).append([k, touched])
+            # a fresh solver object, same arguments
+            rng2 = np.random.default_rng(5)
+            slv2, _d2 = make()
+            df = None if raw_df is None else skl.compiled_clone(raw_df)
+            pen = skl.compiled_clone(raw_pen)
+            if df is not None and hasattr(df, "initialize") and s in ("ProxNewton", "FISTA", "LBFGS", "PDCD_WS"):
+                if storage == "csc" and hasattr(df, "initialize_sparse"):
+                    df.initialize_sparse(Xs.data, Xs.indptr, Xs.indices, y)
+                else:
+                    df.initialize(X, y)
+            fresh = np.array(slv2.solve(Xs, y, df, pen)[0], dtype=float, copy=True)
+    except Exception as e:  # noqa: BLE001
+        exc = (type(e).__name__, str(e)[:200])
+    f.meta["exc"] = exc
+    f.flag("solve_runs", exc is None)
+    if exc is None:
+        tol = 1e-7 * max(1.0, float(np.abs(fresh).max()))
+        f.le("resolve_same_as_fresh", float(np.max(np.abs(results[1] - fresh))), tol)
+        f.le("resolve_same_as_first", float(np.max(np.abs(results[1] - results[0]))), tol)
+    return f.trace()
+
+
+def solve_purity_binding(ck, tier, seed):
+    items = []
+    tid = 800000
+    for comp in SOLVE_COMPS:
+        for st in ("dense", "csc"):
+            if st == "csc" and comp[0] in ("PDCD_WS",) or (st == "csc" and comp[1] == "Pinball"):
+                continue
+            tid += 1
+            items.append((comp, st, seed, tid))
+    res, errs = pool.map_grouped("harness.checks.purity", "run_solve_purity", items, key=lambda it: it[0][:3], chunk=4)
+    for it, msg, tb in errs:
+        ck.machinery(f"solve purity driver failed on {it}: {msg}\n{tb}")
+    if errs:
+        return
+    try:
+        v = rel.judge(res)
+    except tlc.TLCError as e:
+        ck.machinery(str(e)[:2000])
+        return
+    ck.add_verdicts(v)
+    for t in res:
+        names = {c for c, _ in v.bad(t["id"])}
+        meta = t["meta"]
+        ck.count("solve:" + json.dumps({k: meta[k] for k in ("solver", "datafit", "penalty", "storage")}, sort_keys=True),
+                 meta.get("exc") is None)
+        ck.cov["traces_validated_against_impl"] += 1
+        for e in t["events"]:
+            if e["when"]:
+                ck.clause(e["c"], e["c"] not in names)
+        for c in sorted(names):
+            ck.violation(c, dict({k: meta.get(k) for k in ("solver", "datafit", "penalty", "storage", "touched", "exc")},
+                                 clause=c, level="solve"),
+                         dict(kind="solve_purity", replay_module="harness.checks.purity", property="C18", clause=c,
+                              comp=[meta["solver"], meta["datafit"], meta["penalty"]], storage=meta["storage"],
+                              seed=meta["seed"]))
+    ck.cov["binding"].append(dict(check="solver-level purity: same solver object solves twice, all user arrays "
+                                        "byte-compared, second result against a fresh solver", runs=len(res)))
+
+
 def run(prop, tier, seed):
     ck = CK.Check(prop, tier, seed)
     ck.cov["rule"] = (
@@ -247,6 +423,7 @@ def run(prop, tier, seed):
                                      clause=c, history=dict(hist=meta["hist"]), seed=meta["seed"]))
         if len(ck.cov["samples"]) < 5:
             ck.sample(dict(history=meta["hist"], verdict=sorted(names), excs=meta.get("excs")))
+    solve_purity_binding(ck, tier, seed)
     return ck.finish()
 
 
